@@ -2,7 +2,7 @@
 //@ assume: opaque external types (Difficulty, Strain, ManiaDifficultyObject) and external_body contracts for the callees of `next`: Strain::process / cloned_difficulty_value do not touch the calculator's bookkeeping; increment_combo adds one hold note exactly for non-circles (its combo arithmetic is float code, exercised by Kani in U12.mania.protocol.*)
 //@ assume: TYPE ABSTRACTION (disclosed rewrite of types, not of code): Verus refuses `f64 * f64` without a precondition it cannot discharge, so the star value is given the opaque type `Stars` (with an external `Mul`), i.e. `cloned_difficulty_value() * DIFFICULTY_MULTIPLIER` is type-checked against opaque operands; the function text is unchanged. Data shapes declared by hand: NoteState {curr_combo, n_hold_notes}, ManiaDifficultyAttributes {stars, max_combo, n_objects, n_hold_notes, is_convert}
 //@ assume: A-INV as for U12.mania.len.verus
-//@ obl: id=U12.mania.nth.verus fn=ManiaGradualDifficulty::nth props=C15,C02,C05 tier=quick kind=proof twin=yes pair=U12.mania.protocol.n2
+//@ obl: id=U12.mania.nth.verus fn=ManiaGradualDifficulty::nth props=C15,C02,C05 tier=quick kind=proof twin=yes pair=U12.mania.protocol.limited
 //@ fns: ManiaGradualDifficulty::nth (Iterator::nth), ManiaGradualDifficulty::len
 //@ bound: unbounded: every object count (also limited calculators), every position, every n (incl. usize::MAX)
 //@ clause: for ALL N and n: pre: invariant. post: Some iff n < remaining; exactly min(n+1, remaining) values are consumed; the returned value reports n_objects == idx'; the hold-note counter grows by the number of non-circles among the consumed objects other than the first; invariant preserved; indices in bounds; no overflow
